@@ -1,6 +1,7 @@
 """Shared matrix-expander set-up for GpRegressor (C02, C11, C16)."""
 from __future__ import annotations
 import ast
+import copy
 from ..mexp import MExpander
 from ..symx import TupleV, ListV
 from ..ncf import M
@@ -113,6 +114,15 @@ def mean_first_layout(prog, cname, bounds_fn_name, bounds_key):
     ms, cs, nh = one("mean_slice"), one("cov_slice"), one("n_hyperpars")
     if ms is None or pmatch(ms, "slice(0, self.mean.n_params)") is None:
         why.append(f"mean_slice is `{U(ms) if ms is not None else None}`, not slice(0, mean.n_params)")
+    # the covariance slice starts where the mean slice stops: as a value (self.mean_slice.stop is the stop of slice(0, n_mean))
+    if cs is not None and ms is not None:
+        class _Stop(ast.NodeTransformer):
+            def visit_Attribute(self, n):
+                self.generic_visit(n)
+                if n.attr in ("stop", "start") and ast.unparse(n.value) == "self.mean_slice" and isinstance(ms, ast.Call) and len(ms.args) == 2:
+                    return ms.args[1] if n.attr == "stop" else ms.args[0]
+                return n
+        cs = ast.fix_missing_locations(_Stop().visit(copy.deepcopy(cs)))
     okc = cs is not None and (pmatch(cs, "slice(self.mean.n_params, self.n_hyperpars)") is not None
                               or pmatch(cs, "slice(self.mean.n_params, self.mean.n_params + self.cov.n_params)") is not None)
     if not okc:
